@@ -30,6 +30,17 @@ Theorem C01_agreement_dtls12_first_hello_rewritten :
 Proof. exact agreement12_first_hello_rewritten. Qed.
 Print Assumptions C01_agreement_dtls12_first_hello_rewritten.
 
+(* the ServerHello message hook (repaired e8d30a0): the server's committed view is a function of the FINAL
+   ServerHello - the two snapshots agree whatever protocol the hook names, and the server reports that protocol *)
+Theorem C01_agreement_dtls12_server_hello_hook :
+  forall ck sk ss cs h r f0 t o x p,
+    pion_hello ck h -> ems_valid (k_cfg sk) ->
+    server12 sk ss h r = ROk f0 -> client12 ck sk cs h (steer_flight t f0) = ROk o ->
+    mirrored (client_view h o x) (server_view h (steer_flight t f0) x p) /\
+    (t_sh_alpn t <> 0 -> w_alpn (server_view h (steer_flight t f0) x p) = t_sh_alpn t).
+Proof. exact agreement12_hooked. Qed.
+Print Assumptions C01_agreement_dtls12_server_hello_hook.
+
 Theorem C01_agreement_dtls13 :
   forall ck sk ss cs h f o x p,
     server13 sk ss h = ROk f -> client13 ck sk cs h f = ROk o ->
@@ -97,6 +108,33 @@ Theorem C01_exporter_seed_order :
     prf (hash_of_suite (w_suite v)) secret (label ++ w_client_random v ++ w_server_random v) n.
 Proof. exact exporter_seed_order. Qed.
 Print Assumptions C01_exporter_seed_order.
+
+(* as coded, the exporter first looks the suite up in the BUILT-IN table (ciphersuite.ForID(id, nil)): the two sides
+   agree on the bytes or on the failure, the bytes exist exactly for built-in suites ... *)
+Theorem C01_export_as_coded_agreement :
+  forall (prf : N -> list N -> list N -> nat -> list N) (hash_of_suite : N -> N)
+         (vc vs : view) (secret_c secret_s label : list N) (n : nat),
+    mirrored vc vs -> secret_c = secret_s ->
+    export_as_coded prf hash_of_suite true vc secret_c label n = export_as_coded prf hash_of_suite false vs secret_s label n.
+Proof. exact export_as_coded_agreement. Qed.
+Print Assumptions C01_export_as_coded_agreement.
+
+Theorem C01_export_as_coded_available :
+  forall (prf : N -> list N -> list N -> nat -> list N) (hash_of_suite : N -> N)
+         (is_client : bool) (v : view) (secret label : list N) (n : nat),
+    export_as_coded prf hash_of_suite is_client v secret label n <> None <-> known_suite (w_suite v) = true.
+Proof. exact export_as_coded_available. Qed.
+Print Assumptions C01_export_as_coded_available.
+
+(* ... and the clause "byte-identical exported keying material for every label" is refuted for a session on a
+   user-supplied cipher suite (WithCustomCipherSuites): no keying material can be exported (known finding) *)
+Theorem C01_export_unavailable_on_custom_suite_refuted :
+  forall (prf : N -> list N -> list N -> nat -> list N) (hash_of_suite : N -> N),
+    exists suite, known_suite suite = false /\
+      forall is_client v secret label n, w_suite v = suite ->
+        export_as_coded prf hash_of_suite is_client v secret label n = None.
+Proof. exact export_unavailable_on_custom_suite_refuted. Qed.
+Print Assumptions C01_export_unavailable_on_custom_suite_refuted.
 
 (* the hypotheses are satisfiable *)
 Example C01_default_pair_agrees :
